@@ -2,6 +2,9 @@ import A2Verif.Model.Hex
 import A2Verif.Drv.Fs
 import A2Verif.Drv.FsPascal
 import A2Verif.Drv.FsDos
+import A2Verif.Drv.FsFat
+import A2Verif.Drv.FsProdos
+import A2Verif.Drv.FsCpm
 import A2Verif.Drv.C01
 import A2Verif.Drv.C02
 import A2Verif.Drv.C03
@@ -34,16 +37,30 @@ structure State where
   fsp : FsPascal.St := {}
   /-- concrete DOS 3.x model (family `fsd`); compares its flushed image with the mirror kept by family `fs` -/
   fsd : FsDos.St := {}
+  /-- concrete FAT model (family `fsf`); compares its flushed image with the mirror kept by family `fs`
+  (reset to the default by the structure literal of `fs open` below) -/
+  fsf : FsFat.St := {}
+  /-- concrete ProDOS model (family `fspd`); compares its written-back image with the mirror kept by family `fs`
+  (reset to the default by the structure literal of `fs open` below) -/
+  fspd : FsProdos.St := {}
+  /-- concrete CP/M model (family `fsc`); compares its image with the mirror kept by family `fs`, DPB from the `fs open` line -/
+  fsc : FsCpm.St := {}
 
 def State.init : State := {}
 
 def dispatch (st : State) (toks : List String) : State × String :=
   match toks with
   | "ping" :: _ => (st, "pong")
-  | "fs" :: "open" :: rest => let (f, a) := Fs.handle st.fs ("open" :: rest); ({ fs := f, fsp := {}, fsd := {} }, a)
+  | "fs" :: "open" :: rest => let (f, a) := Fs.handle st.fs ("open" :: rest); ({ fs := f, fsp := {}, fsd := {}, fsc := {} }, a)
   | "fs" :: rest => let (f, a) := Fs.handle st.fs rest; ({ st with fs := f }, a)
   | "fsp" :: rest => let (f, a) := FsPascal.handle st.fs.raw st.fsp rest; ({ st with fsp := f }, a)
   | "fsd" :: rest => let (f, a) := FsDos.handle st.fs.raw st.fsd rest; ({ st with fsd := f }, a)
+  | "fsf" :: rest => let (f, a) := FsFat.handle st.fs.raw st.fsf rest; ({ st with fsf := f }, a)
+  | "fspd" :: rest => let (f, a) := FsProdos.handle st.fs.raw st.fspd rest; ({ st with fspd := f }, a)
+  | "fsc" :: rest =>
+    let dpb : Read.Cpm.Dpb := { bsh := Fs.param st.fs "bsh", exm := Fs.param st.fs "exm", dsm := Fs.param st.fs "dsm", drm := Fs.param st.fs "drm",
+                                al0 := Fs.param st.fs "al0", al1 := Fs.param st.fs "al1", v3 := Fs.param st.fs "v3" == 1 }
+    let (f, a) := FsCpm.handle dpb st.fs.raw st.fsc rest; ({ st with fsc := f }, a)
   | "c01" :: rest => (st, C01.handle rest)
   | "c02" :: rest => (st, C02.handle rest)
   | "c03" :: rest => (st, C03.handle rest)
